@@ -324,6 +324,16 @@ def _explore(unit, cfg, fn, out, stack, budget, timeout_ms, known, notes, truste
                 s.add(a)
             if s.check() != z3.unsat:
                 out["vacuity"]["paths_sat"] += 1
+        for cname, cpc in c.covers:
+            out["vacuity"].setdefault("covers", 0)
+            out["vacuity"].setdefault("covers_unsat", [])
+            out["vacuity"]["covers"] += 1
+            s = z3.Solver()
+            s.set("timeout", 10000)
+            for a in cpc:
+                s.add(a)
+            if s.check() == z3.unsat:
+                out["vacuity"]["covers_unsat"].append(cname)
         # discharge
         for ob in c.obls:
             r = core.discharge(ob, c.inputs, timeout_ms=timeout_ms)
